@@ -629,10 +629,10 @@ class Heap:
                     break
                 last = d == depth
                 if pool:
-                    chunk = max(1, len(level) // (jobs * 4))
-                    results = pool.map(_expand_worker, [(g, True, last) for g in level], chunksize=chunk)
+                    chunk = max(1, min(64, len(level) // (jobs * 8)))
+                    results = pool.imap(_expand_worker, [(g, True, last) for g in level], chunksize=chunk)
                 else:
-                    results = [self.expand(g, True, last) for g in level]
+                    results = (self.expand(g, True, last) for g in level)
                 nxt = []
                 for g, (own, orc, succ, runs, errs) in zip(level, results):
                     stats["interpreter_runs"] += runs
@@ -650,6 +650,17 @@ class Heap:
                             seen[g2] = (g, lab)
                             nxt.append(g2)
                         note(v, g, lab)
+                    if time.time() - t0 > budget_s or len(seen) > max_states:
+                        # out of budget in the middle of a level: the rest of the level is not expanded
+                        stats["stopped_by_budget"] = 1
+                        if pool:
+                            pool.terminate()
+                            pool = None
+                        break
+                if stats.get("stopped_by_budget"):
+                    stats["levels"] = d + 1
+                    stats["level_%d_states" % d] = len(level)
+                    break
                 stats["levels"] = d + 1
                 stats["level_%d_states" % d] = len(level)
                 level = nxt
